@@ -1195,7 +1195,7 @@ func (e *Enc) evalCall(n *ast.CallExpr, env *Env) Val {
 		for _, ins := range env.loop.head.Instrs {
 			if nx, ok := ins.(*ssa.Next); ok && nx.IsString {
 				if it, ok := e.vals[nx.Iter]; ok && !it.Bad && len(it.L) == 1 {
-					return Val{T: types.Typ[types.Int], L: []string{e.sel2(e.heap(env.st, SI), it.L[0], e.M.ilit(0))}}
+					return Val{T: types.Typ[types.Int], L: []string{e.sel2(e.heap(env.st, SIter), it.L[0], e.M.ilit(0))}}
 				}
 			}
 		}
